@@ -19,11 +19,10 @@ Algorithm level (models `Model.FastPath`, `Model.Lemire`, tied to the code by th
   `q > LARGEST_POWER_OF_TEN`), and the whole exact-product range `0 ≤ q ≤ 27` for every `w < 2^64`;
 * `lemire_wrapper` — proved: the `many_digits` two-pass wrapper is correct relative to `compute_float`
   on `w` and `w + 1`;
-* `bellerophon_sound` (`compact` builds) — the **full** statement, a `Prop`; `bellerophon_sound_partial` —
-  proved for every **untruncated** mantissa (`many_digits = false`), every exponent: early exits, the error
-  accounting of both multiplications against the *truncated* table (`Proof.BellError.scale_bound`), the
-  `error_is_accurate` decision and the rounding (`Proof.BellRound.bellFinish_sound`). Missing: truncated
-  mantissas (`many_digits`), where the booked `8 << min(ctlz+1, 20)` has to cover `x ∈ [w, w+1)·10^e`.
+* `bellerophon_sound` (`compact` builds) — **complete** on the model: a valid answer is `roundNE` of the true
+  value, truncated mantissas included (every exponent; early exits, error accounting of both multiplications
+  against the *truncated* table, the booked truncation error `8 << min(ctlz+1, 20)` of /repo commit 5dc6041,
+  the `error_is_accurate` decision, the rounding).
 -/
 namespace LexVerif.Props.C01
 open LexVerif.Spec LexVerif.Model LexVerif.Proof.Tables
@@ -232,19 +231,29 @@ example : Lemire.lemire FTy.f64 ⟨9007199254740993, 0, false, true⟩ false = .
 
 /-! ## Bellerophon (decimal, `compact` builds) -/
 
-/-- **C01.5' `bellerophon_sound` — full statement** (a `Prop`): a valid non-lossy answer of `bellerophon` for the
-mantissa `w` (truncated or not) is `roundNE x` for the true value `x`: `x = w·10^e`, or any
-`x ∈ [w, w+1)·10^e` when `many_digits` is set. -/
-def bellerophon_sound : Prop :=
-  ∀ F, IsLemireFloat F → ∀ (n : Num), n.mantissa < 2 ^ 64 → ∀ (num den : Nat), 0 < den →
-    (powFrac 10 n.exponent n.mantissa).1 * den ≤ num * (powFrac 10 n.exponent n.mantissa).2 →
-    (if n.manyDigits then num * (powFrac 10 n.exponent (n.mantissa + 1)).2 < (powFrac 10 n.exponent (n.mantissa + 1)).1 * den
-     else num * (powFrac 10 n.exponent n.mantissa).2 = (powFrac 10 n.exponent n.mantissa).1 * den) →
-    ∀ fp, Bellerophon.bellerophon F (Gen.Bellerophon.CompactRadix.powers 10) n false = .ok fp → 0 ≤ fp.exp →
-      extendedToFloat F fp = roundNE F.fmt num den
+/-- **C01.5' `bellerophon_sound`** (**complete** on the model): a valid non-lossy answer of `bellerophon` for
+the mantissa `w` is `roundNE x` for the true value `x` of the literal: `x = w·10^e` when nothing was truncated,
+any `x ∈ [w, w+1)·10^e` when `many_digits` is set (`TrueValue`). Hypothesis for truncated mantissas:
+`w ≥ 2^44` — `parse_number` sets `many_digits` only after accumulating 19 digits (`w ≥ 10^18`), and below `2^44`
+the cap `min(ctlz + 1, 20)` of the booked truncation error would be reached.
+Ingredients: the table facts of `Proof.BellTables.bellCheck` (kernel-evaluated on the model's accessors,
+i.e. tables **and** exponent formula), `mul` = exact product rounded half-up, the error accounting against the
+*truncated* large powers (`scale_bound`), and `error_is_accurate` ⇒ same rounding for every value within the
+booked errors (`accurate_round`; the booked eighths are compared as whole units, which is what covers the
+under-booked table error). -/
+theorem bellerophon_sound (F : FTy) (hF : IsLemireFloat F) (n : Num) (hw : n.mantissa < 2 ^ 64)
+    (hmw : n.manyDigits = true → 2 ^ 44 ≤ n.mantissa) (num den : Nat) (hd : 0 < den)
+    (htv : LexVerif.Proof.Bell.TrueValue 10 n num den) {fp : ExtendedFloat80}
+    (h : Bellerophon.bellerophon F (Gen.Bellerophon.CompactRadix.powers 10) n false = .ok fp) (hv : 0 ≤ fp.exp) :
+    extendedToFloat F fp = roundNE F.fmt num den := by
+  have hc := LexVerif.Proof.Bell.bellFacts_of
+    (LexVerif.Proof.Bell.bellCheck_compact 10 (by decide))
+  rcases hF with h' | h' <;> subst h'
+  · exact LexVerif.Proof.Bell.bellerophon_sound_all layout_f64 (by decide) hc n hw hmw num den hd htv h hv
+  · exact LexVerif.Proof.Bell.bellerophon_sound_all layout_f32 (by decide) hc n hw hmw num den hd htv h hv
 
-/-- **`bellerophon_sound_partial`**: the untruncated case, for every `w < 2^64` and every exponent. -/
-theorem bellerophon_sound_partial (F : FTy) (hF : IsLemireFloat F) (n : Num) (hmany : n.manyDigits = false)
+/-- the untruncated case in closed form -/
+theorem bellerophon_sound_untruncated (F : FTy) (hF : IsLemireFloat F) (n : Num) (hmany : n.manyDigits = false)
     (hw : n.mantissa < 2 ^ 64) {fp : ExtendedFloat80}
     (h : Bellerophon.bellerophon F (Gen.Bellerophon.CompactRadix.powers 10) n false = .ok fp) (hv : 0 ≤ fp.exp) :
     extendedToFloat F fp =
@@ -254,6 +263,9 @@ theorem bellerophon_sound_partial (F : FTy) (hF : IsLemireFloat F) (n : Num) (hm
   rcases hF with h' | h' <;> subst h'
   · exact LexVerif.Proof.Bell.bellerophon_untruncated_sound layout_f64 (by decide) hc n hmany hw h hv
   · exact LexVerif.Proof.Bell.bellerophon_untruncated_sound layout_f32 (by decide) hc n hmany hw h hv
+
+/-- the hypothesis on truncated mantissas holds for what `parse_number` produces: 19 significant digits -/
+example : (2 : Nat) ^ 44 ≤ 10 ^ 18 := by decide
 
 /-- non-vacuity: a decided and an undecided decimal case (values from the compiled crate, op `bel`) -/
 example : Bellerophon.bellerophon FTy.f64 (Gen.Bellerophon.CompactRadix.powers 10) ⟨12345, 10, false, false⟩ false =
